@@ -9,7 +9,24 @@ import Mathlib.Tactic.FieldSimp
 import Mathlib.Tactic.Positivity
 import Mathlib.Tactic.LinearCombination
 /-! Values of the Wigner 3-j calculator at `α := ℝ`: normalisation, sign convention, single-cell
-    closed form, three-term recurrence.  Helper lemmas for `Props/W3jNorm.lean`. -/
+    closed form, three-term recurrence.  Helper lemmas for `Props/W3jNorm.lean`.
+
+    Contents
+    * arrays addressed by integers (`geti`/`seti`, `mapRange` = the shape of `divRange`, `mulRange`,
+      `copyRange`), every arithmetic;
+    * `calculateP_isFinish`: every multi-cell run that does not hit `Zf(j_max) == 0.0` ends in
+      `finish` (= `normalize`, `determine_signs`) of an array of `size` cells — `mvcgen` over the phases
+      of `Lemmas/W3jBounds.lean` in the monad `Id`, every arithmetic;
+    * `normalize`, `determineSigns`, `finish` in exact arithmetic (`wsum`, `finish_spec`), the
+      coefficient facts (`A_pos`, `A_jmin`, `A_top`, `Zf_ne`), the single-cell closed form;
+    * the run as a pipeline: one function per `for` loop (same text) + loop-free glue, equal to the
+      phases by case split and `rfl` (`calculateP_eq`, `afterFwd_eq`, `threeTerm_eq`, `meet_eq`);
+    * Hoare triples of the loops (`mvcgen`, cursor invariants): data flow for the two fill loops and
+      the copy loop (every arithmetic); at `ℝ` the ratio loops (`SfOK`, `RfOK`: continued-fraction
+      steps with non-zero denominators) and the three-term sweeps (`FwdInv`, `BwdInv`: the recurrence
+      holds on the part swept so far; preserved by the step and by the rescaling);
+    * the phases at `ℝ` (`fwdPhase_ok`, `revPhase_ok`, `meet_ok`, `threeTerm_ok`, `afterFwd_ok`,
+      `calculate_good`) and the results (`recurrence_out`, `normalized_regular`, `regular_of_*`). -/
 namespace Lemmas.W3jNorm
 open Model.W3j Scalar
 open Lemmas.W3jBounds (finish meet threeTerm afterFwd calculateP calculate_phased)
@@ -1262,5 +1279,808 @@ theorem revRatioLoop_triple (jmin jmax jminus : Int) (sf : Array ℝ) :
     exact ⟨hsz, hseed, hrange, fun j h1 h2 h3 => hok j h1 h2 (by omega) h3⟩
 
 end recurrence
+
+/-! ### the phases in exact arithmetic -/
+noncomputable section glue
+open Std.Do
+variable (j2 j3 m1 m2 m3 : Int)
+
+/-- the facts about the coefficient functions the analysis needs -/
+structure Coef (jmin jmax : Int) : Prop where
+  h0 : 0 ≤ jmin
+  hlt : jmin < jmax
+  Z0 : (Zf jmin j2 j3 m1 : ℝ) = 0
+  Xtop : (Xf jmax j2 j3 m1 : ℝ) = 0
+  Zne : ∀ j, jmin < j → j ≤ jmax → (Zf j j2 j3 m1 : ℝ) ≠ 0
+  Xne : ∀ j, jmin ≤ j → j < jmax → j ≠ 0 → (Xf j j2 j3 m1 : ℝ) ≠ 0
+  Y0 : jmin = 0 → (Yf jmin j2 j3 m2 m3 : ℝ) = 0
+  Yz : m1 = 0 → m2 = 0 → m3 = 0 → ∀ j, (Yf j j2 j3 m2 m3 : ℝ) = 0
+
+theorem negYf_real (j : Int) : (negYf j j2 j3 m2 m3 : ℝ) = -(Yf j j2 j3 m2 m3 : ℝ) := by
+  simp [negYf, Yf]
+
+variable {j2 j3 m1 m2 m3}
+
+/-- two seeded cells on a zero array -/
+theorem fwdInv_seed {jmin jmax : Int} (C : Coef j2 j3 m1 m2 m3 jmin jmax) {n : Nat} {a : Array ℝ}
+    (hsz : a.size = n) (h1 : geti a jmin ≠ 0) (hz : ∀ j, 0 ≤ j → j < jmin → geti a j = 0)
+    (hrec : (Xf jmin j2 j3 m1 : ℝ) * geti a (jmin + 1) + (Yf jmin j2 j3 m2 m3 : ℝ) * geti a jmin = 0) :
+    FwdInv j2 j3 m1 m2 m3 jmin n a (jmin + 1) := by
+  refine ⟨hsz, h1, hz, fun j hj hlt => ?_⟩
+  have : j = jmin := by omega
+  rw [this]
+  unfold Rec
+  rw [C.Z0, zero_mul, add_zero]
+  exact hrec
+
+theorem seed2 {n : Nat} {Fm : Array ℝ} (hFm : Fm.size = n) (hz : ∀ j, geti Fm j = 0) (jmin : Int)
+    (h0 : 0 ≤ jmin) (hn : jmin + 1 < n) (v : ℝ) :
+    (seti (seti Fm jmin one) (jmin + 1) v).size = n ∧
+    geti (seti (seti Fm jmin one) (jmin + 1) v) jmin = 1 ∧
+    geti (seti (seti Fm jmin one) (jmin + 1) v) (jmin + 1) = v ∧
+    ∀ j, 0 ≤ j → j ≠ jmin → j ≠ jmin + 1 → geti (seti (seti Fm jmin one) (jmin + 1) v) j = 0 := by
+  refine ⟨by rw [size_seti, size_seti, hFm], ?_, ?_, fun j hj h1 h2 => ?_⟩
+  · rw [geti_seti_ne _ _ _ _ (by omega), geti_seti_same _ _ _ (by omega)]; simp
+  · rw [geti_seti_same _ _ _ (by rw [size_seti]; omega)]
+  · rw [geti_seti_ne _ _ _ _ (by omega), geti_seti_ne _ _ _ _ (by omega), hz]
+
+/-- what the forward phase guarantees -/
+def FwdOK (jmin jmax : Int) (n : Nat) (fw : Fwd ℝ) : Prop :=
+  fw.sf.size = n ∧ (fw.undefMin = true → fw.jminus = jmin) ∧
+  (fw.undefMin = false → jmin + 1 ≤ fw.jminus ∧ fw.jminus ≤ jmax ∧
+    FwdInv j2 j3 m1 m2 m3 jmin n fw.Fm fw.jminus)
+
+theorem fwdOK_seed {jmin jmax : Int} (C : Coef j2 j3 m1 m2 m3 jmin jmax) {n : Nat} {sf Fm : Array ℝ}
+    (hsf : sf.size = n) (hFm : Fm.size = n) (hz : ∀ j, geti Fm j = 0) (hn : jmax < n) (v : ℝ)
+    (hrec : (Xf jmin j2 j3 m1 : ℝ) * v + (Yf jmin j2 j3 m2 m3 : ℝ) = 0) :
+    FwdOK (j2 := j2) (j3 := j3) (m1 := m1) (m2 := m2) (m3 := m3) jmin jmax n
+      ⟨sf, seti (seti Fm jmin one) (jmin + 1) v, false, jmin + 1⟩ := by
+  obtain ⟨s1, s2, s3, s4⟩ := seed2 hFm hz jmin C.h0 (by have := C.hlt; omega) v
+  have hlt := C.hlt
+  refine ⟨hsf, fun h => by simp at h, fun _ => ⟨le_refl _, ?_, ?_⟩⟩
+  · show jmin + 1 ≤ jmax; omega
+  show FwdInv j2 j3 m1 m2 m3 jmin n (seti (seti Fm jmin one) (jmin + 1) v) (jmin + 1)
+  refine fwdInv_seed C s1 (by rw [s2]; norm_num) (fun j hj hlt => s4 j hj (by omega) (by omega)) ?_
+  rw [s2, s3, mul_one]; exact hrec
+
+
+/-- the forward non-classical region: ratios, then values; the recurrence holds below `j_minus` and no
+    value vanishes -/
+theorem fwd_ratio_fill {jmin jmax : Int} (C : Coef j2 j3 m1 m2 m3 jmin jmax) {n : Nat} {sf Fm : Array ℝ}
+    (hsf : sf.size = n) (hFm : Fm.size = n) (hz : ∀ j, geti Fm j = 0) (hn : jmax < n)
+    (hY : (Yf jmin j2 j3 m2 m3 : ℝ) ≠ 0) :
+    let r := (fwdRatioLoop j2 j3 m1 m2 m3 jmin jmax
+      (seti sf jmin (-(Xf jmin j2 j3 m1 : ℝ) / (Yf jmin j2 j3 m2 m3 : ℝ)))).run
+    let Fm' := (fwdFillLoop jmin r.2 r.1 (seti Fm r.2 one)).run
+    r.1.size = n ∧ jmin ≤ r.2 ∧ r.2 ≤ jmax ∧ Fm'.size = n ∧ geti Fm' r.2 = 1 ∧
+    (∀ j, 0 ≤ j → (j < jmin ∨ r.2 < j) → geti Fm' j = 0) ∧
+    (∀ j, jmin ≤ j → j ≤ r.2 → geti Fm' j ≠ 0) ∧
+    (∀ j, jmin ≤ j → j < r.2 → Rec j2 j3 m1 m2 m3 Fm' j) := by
+  intro r Fm'
+  have h0 := C.h0
+  have hlt := C.hlt
+  have hjm0 : jmin ≠ 0 := fun h => hY (C.Y0 h)
+  have hXmin : (Xf jmin j2 j3 m1 : ℝ) ≠ 0 := C.Xne jmin (le_refl _) hlt hjm0
+  obtain ⟨r1, r2, r3, r4, r5⟩ := (id_triple _ _ _).1
+    (fwdRatioLoop_triple j2 j3 m1 m2 m3 jmin jmax
+      (seti sf jmin (-(Xf jmin j2 j3 m1 : ℝ) / (Yf jmin j2 j3 m2 m3 : ℝ))))
+    ⟨h0, hlt.le, by rw [size_seti, hsf]; exact_mod_cast hn⟩
+  rw [size_seti, hsf] at r1
+  rw [geti_seti_same _ _ _ (by omega)] at r2
+  change r.1.size = n at r1
+  change geti r.1 jmin = _ at r2
+  change jmin ≤ r.2 at r3
+  change r.2 ≤ jmax at r4
+  change ∀ j, jmin < j → j < r.2 → SfOK j2 j3 m1 m2 m3 r.1 j at r5
+  obtain ⟨f1, f2, f3⟩ := (id_triple _ _ _).1 (fwdFillLoop_triple jmin r.2 r.1 (seti Fm r.2 one))
+    ⟨h0, r3, by rw [size_seti, hFm]; omega⟩
+  rw [size_seti, hFm] at f1
+  change Fm'.size = n at f1
+  change ∀ j, jmin ≤ j → j < r.2 → geti Fm' j = geti Fm' (j+1) * geti r.1 j at f2
+  change ∀ j, 0 ≤ j → (j < jmin ∨ r.2 ≤ j) → geti Fm' j = geti (seti Fm r.2 one) j at f3
+  have hseed : geti Fm' r.2 = 1 := by
+    rw [f3 _ (by omega) (Or.inr (le_refl _)), geti_seti_same _ _ _ (by omega)]; simp
+  have hzero : ∀ j, 0 ≤ j → (j < jmin ∨ r.2 < j) → geti Fm' j = 0 := by
+    intro j hj h
+    rw [f3 j hj (by omega), geti_seti_ne _ _ _ _ (by omega), hz]
+  -- the ratios do not vanish
+  have hsfne : ∀ j, jmin ≤ j → j < r.2 → geti r.1 j ≠ 0 := by
+    intro j h1 h2
+    by_cases hj : j = jmin
+    · rw [hj, r2]; exact div_ne_zero (neg_ne_zero.2 hXmin) hY
+    · obtain ⟨hd, he⟩ := r5 j (by omega) h2
+      rw [he]
+      exact div_ne_zero (neg_ne_zero.2 (C.Xne j h1 (by omega) (by omega))) hd
+  have hne : ∀ k : Nat, ∀ j, j = r.2 - k → jmin ≤ j → geti Fm' j ≠ 0 := by
+    intro k
+    induction k with
+    | zero => intro j hj _; rw [hj]; simp only [Nat.cast_zero, sub_zero, hseed]; norm_num
+    | succ k ih =>
+      intro j hj hlo
+      rw [f2 j hlo (by omega)]
+      exact mul_ne_zero (ih (j + 1) (by omega) (by omega)) (hsfne j hlo (by omega))
+  refine ⟨r1, r3, r4, f1, hseed, hzero, fun j h1 h2 => hne (r.2 - j).toNat j (by omega) h1,
+    fun j h1 h2 => ?_⟩
+  unfold Rec
+  by_cases hj : j = jmin
+  · rw [hj, C.Z0, zero_mul, add_zero, f2 jmin (le_refl _) (by omega), r2]
+    field_simp
+    ring
+  · obtain ⟨hd, he⟩ := r5 j (by omega) h2
+    rw [f2 (j - 1) (by omega) (by omega), sub_add_cancel, f2 j h1 h2, he]
+    field_simp
+    ring
+
+theorem fwdPhase_ok {jmin jmax : Int} (C : Coef j2 j3 m1 m2 m3 jmin jmax) {n : Nat} {sf Fm : Array ℝ}
+    (hsf : sf.size = n) (hFm : Fm.size = n) (hz : ∀ j, geti Fm j = 0) (hn : jmax < n) :
+    FwdOK (j2 := j2) (j3 := j3) (m1 := m1) (m2 := m2) (m3 := m3) jmin jmax n
+      (fwdPhase j2 j3 m1 m2 m3 jmin jmax sf Fm) := by
+  have h0 := C.h0
+  have hlt := C.hlt
+  unfold fwdPhase
+  simp only [isZero, ge0, RealScalar.beq_def, RealScalar.le_def, RealScalar.zero_def,
+    RealScalar.mul_def, RealScalar.div_def, RealScalar.neg_def, decide_eq_true_eq, negYf_real]
+  split
+  · -- all m vanish
+    rename_i hm
+    simp only [Bool.and_eq_true, decide_eq_true_eq] at hm
+    refine fwdOK_seed C hsf hFm hz hn 0 ?_
+    rw [mul_zero, zero_add]
+    exact C.Yz hm.1.1 hm.1.2 hm.2 jmin
+  · split
+    · rename_i hY
+      split
+      · exact ⟨hsf, fun _ => rfl, fun h => by simp at h⟩
+      · refine fwdOK_seed C hsf hFm hz hn 0 ?_
+        rw [mul_zero, zero_add]; exact hY
+    · rename_i hY
+      have hjm0 : jmin ≠ 0 := fun h => hY (C.Y0 h)
+      have hXmin : (Xf jmin j2 j3 m1 : ℝ) ≠ 0 := C.Xne jmin (le_refl _) hlt hjm0
+      split
+      · refine fwdOK_seed C hsf hFm hz hn _ ?_
+        field_simp
+        ring
+      · obtain ⟨r1, r3, r4, f1, hseed, hzero, hne, hrec⟩ := fwd_ratio_fill C hsf hFm hz hn hY
+        split
+        · rename_i hr
+          refine ⟨r1, fun h => by simp at h, fun _ => ⟨le_refl _, ?_, ?_⟩⟩
+          · show jmin + 1 ≤ jmax; omega
+          · refine fwdInv_seed C (by rw [size_seti]; exact f1) ?_ (fun j hj hl => ?_) ?_
+            · rw [geti_seti_ne _ _ _ _ (by omega)]; exact hne jmin (le_refl _) r3
+            · rw [geti_seti_ne _ _ _ _ (by omega)]; exact hzero j hj (Or.inl hl)
+            · rw [geti_seti_same _ _ _ (by rw [f1]; omega), geti_seti_ne _ _ _ _ (by omega)]
+              have h1 : geti _ jmin = (1 : ℝ) := (congrArg _ hr).symm.trans hseed
+              rw [h1]
+              field_simp
+              ring
+        · rename_i hr
+          refine ⟨r1, fun h => by simp at h, fun _ => ⟨?_, r4, f1, hne jmin (le_refl _) r3,
+            fun j hj hl => hzero j hj (Or.inl hl), hrec⟩⟩
+          dsimp only
+          omega
+
+/-- the reverse non-classical region -/
+theorem rev_ratio_fill {jmin jmax : Int} (C : Coef j2 j3 m1 m2 m3 jmin jmax) {n : Nat} {sf Fp : Array ℝ}
+    (hsf : sf.size = n) (hFp : Fp.size = n) (hn : jmax < n) (jminus : Int) (hjm : jmin ≤ jminus)
+    (hjm' : jminus ≤ jmax) (hY : (Yf jmax j2 j3 m2 m3 : ℝ) ≠ 0) :
+    let r := (revRatioLoop j2 j3 m1 m2 m3 jmin jmax jminus
+      (seti sf jmax (-(Zf jmax j2 j3 m1 : ℝ) / (Yf jmax j2 j3 m2 m3 : ℝ)))).run
+    let Fp' := (revFillLoop jmax r.2 r.1 (seti Fp r.2 one)).run
+    (r.2 = jmin ∨ (jminus + 1 ≤ r.2 ∧ r.2 ≤ jmax)) ∧ Fp'.size = n ∧ geti Fp' r.2 = 1 ∧
+    (∀ j, r.2 < j → jminus ≤ j → j ≤ jmax → Rec j2 j3 m1 m2 m3 Fp' j) := by
+  intro r Fp'
+  have h0 := C.h0
+  have hlt := C.hlt
+  obtain ⟨r1, r2, r3, r5⟩ := (id_triple _ _ _).1
+    (revRatioLoop_triple j2 j3 m1 m2 m3 jmin jmax jminus
+      (seti sf jmax (-(Zf jmax j2 j3 m1 : ℝ) / (Yf jmax j2 j3 m2 m3 : ℝ))))
+    ⟨h0, hjm, hjm', by rw [size_seti, hsf]; exact_mod_cast hn⟩
+  rw [size_seti, hsf] at r1
+  rw [geti_seti_same _ _ _ (by omega)] at r2
+  change r.1.size = n at r1
+  change geti r.1 jmax = _ at r2
+  change r.2 = jmin ∨ (jminus + 1 ≤ r.2 ∧ r.2 ≤ jmax) at r3
+  change ∀ j, jminus ≤ j → r.2 ≤ j → j < jmax → RfOK j2 j3 m1 m2 m3 r.1 j at r5
+  have hr0 : 0 ≤ r.2 ∧ r.2 ≤ jmax := by omega
+  obtain ⟨f1, f2, f3⟩ := (id_triple _ _ _).1 (revFillLoop_triple jmax r.2 r.1 (seti Fp r.2 one))
+    ⟨hr0.1, hr0.2, by rw [size_seti, hFp]; exact_mod_cast hn⟩
+  rw [size_seti, hFp] at f1
+  change Fp'.size = n at f1
+  change ∀ j, r.2 < j → j ≤ jmax → geti Fp' j = geti Fp' (j-1) * geti r.1 j at f2
+  change ∀ j, 0 ≤ j → (j ≤ r.2 ∨ jmax < j) → geti Fp' j = geti (seti Fp r.2 one) j at f3
+  have hseed : geti Fp' r.2 = 1 := by
+    rw [f3 _ (by omega) (Or.inl (le_refl _)), geti_seti_same _ _ _ (by omega)]; simp
+  refine ⟨r3, f1, hseed, fun j h1 h2 h3 => ?_⟩
+  unfold Rec
+  by_cases hj : j = jmax
+  · rw [hj, C.Xtop, zero_mul, zero_add, f2 jmax (by omega) (le_refl _), r2]
+    field_simp
+    ring
+  · obtain ⟨hd, he⟩ := r5 j h2 h1.le (by omega)
+    rw [f2 (j + 1) (by omega) (by omega), add_sub_cancel_right, f2 j h1 h3, he]
+    field_simp
+    ring
+
+/-- what the reverse phase guarantees -/
+def RevOK (jmin jmax : Int) (n : Nat) (jminus : Int) (rv : Rev ℝ) : Prop :=
+  rv.undefMax = false ∧ jmin ≤ rv.jplus ∧ rv.jplus ≤ jmax - 1 ∧
+  ∃ s, rv.jplus ≤ s ∧ s ≤ jmax ∧ BwdInv j2 j3 m1 m2 m3 jmax n s rv.Fp (max rv.jplus (jminus - 1))
+
+theorem bwdInv_seed {jmin jmax : Int} (C : Coef j2 j3 m1 m2 m3 jmin jmax) {n : Nat} {a : Array ℝ}
+    (hsz : a.size = n) (h1 : geti a jmax ≠ 0)
+    (hrec : (Yf jmax j2 j3 m2 m3 : ℝ) * geti a jmax + (Zf jmax j2 j3 m1 : ℝ) * geti a (jmax - 1) = 0) :
+    BwdInv j2 j3 m1 m2 m3 jmax n jmax a (jmax - 1) := by
+  refine ⟨hsz, h1, fun j hj hle => ?_⟩
+  have : j = jmax := by omega
+  rw [this]
+  unfold Rec
+  rw [C.Xtop, zero_mul, zero_add]
+  exact hrec
+
+theorem revOK_seed {jmin jmax : Int} (C : Coef j2 j3 m1 m2 m3 jmin jmax) {n : Nat} {sf Fp : Array ℝ}
+    (hFp : Fp.size = n) (hn : jmax < n) (jminus : Int) (v : ℝ)
+    (hrec : (Yf jmax j2 j3 m2 m3 : ℝ) + (Zf jmax j2 j3 m1 : ℝ) * v = 0) :
+    RevOK (j2 := j2) (j3 := j3) (m1 := m1) (m2 := m2) (m3 := m3) jmin jmax n jminus
+      ⟨sf, seti (seti Fp jmax one) (jmax - 1) v, false, jmax - 1⟩ := by
+  have h0 := C.h0
+  have hlt := C.hlt
+  refine ⟨rfl, ?_, le_refl _, jmax, ?_, le_refl _, ?_⟩
+  · show jmin ≤ jmax - 1; omega
+  · show jmax - 1 ≤ jmax; omega
+  · refine BwdInv.mono (bwdInv_seed C (by rw [size_seti, size_seti, hFp]) ?_ ?_) (le_max_left _ _)
+    · rw [geti_seti_ne _ _ _ _ (by omega), geti_seti_same _ _ _ (by omega)]; simp
+    · rw [geti_seti_ne _ _ _ _ (by omega), geti_seti_same _ _ _ (by omega),
+        geti_seti_same _ _ _ (by rw [size_seti]; omega)]
+      simp only [RealScalar.one_def, mul_one]; exact hrec
+
+theorem revPhase_ok {jmin jmax : Int} (C : Coef j2 j3 m1 m2 m3 jmin jmax) {n : Nat} {sf Fp : Array ℝ}
+    (hsf : sf.size = n) (hFp : Fp.size = n) (hn : jmax < n) (jminus : Int) (hjm : jmin ≤ jminus)
+    (hjm' : jminus ≤ jmax - 1) :
+    RevOK (j2 := j2) (j3 := j3) (m1 := m1) (m2 := m2) (m3 := m3) jmin jmax n jminus
+      (revPhase j2 j3 m1 m2 m3 jmin jmax sf Fp jminus) := by
+  have h0 := C.h0
+  have hlt := C.hlt
+  have hZ : (Zf jmax j2 j3 m1 : ℝ) ≠ 0 := C.Zne jmax hlt (le_refl _)
+  unfold revPhase
+  simp only [isZero, ge0, RealScalar.beq_def, RealScalar.le_def, RealScalar.zero_def,
+    RealScalar.mul_def, RealScalar.div_def, RealScalar.neg_def, decide_eq_true_eq, negYf_real]
+  split
+  · rename_i hm
+    simp only [Bool.and_eq_true, decide_eq_true_eq] at hm
+    refine revOK_seed C hFp hn jminus 0 ?_
+    rw [mul_zero, add_zero]
+    exact C.Yz hm.1.1 hm.1.2 hm.2 jmax
+  · split
+    · rename_i hY
+      refine revOK_seed C hFp hn jminus _ ?_
+      rw [hY]; simp
+    · rename_i hY
+      split
+      · refine revOK_seed C hFp hn jminus _ ?_
+        field_simp
+        ring
+      · obtain ⟨r3, f1, hseed, hrec⟩ := rev_ratio_fill C hsf hFp hn jminus hjm (by omega) hY
+        split
+        · rename_i hr
+          refine ⟨rfl, ?_, le_refl _, jmax, ?_, le_refl _, ?_⟩
+          · show jmin ≤ jmax - 1; omega
+          · show jmax - 1 ≤ jmax; omega
+          · refine BwdInv.mono (bwdInv_seed C (by rw [size_seti]; exact f1) ?_ ?_) (le_max_left _ _)
+            · rw [geti_seti_ne _ _ _ _ (by omega)]
+              have h1 : geti _ jmax = (1 : ℝ) := (congrArg _ hr).symm.trans hseed
+              rw [h1]; norm_num
+            · rw [geti_seti_same _ _ _ (by rw [f1]; omega), geti_seti_ne _ _ _ _ (by omega)]
+              have h1 : geti _ jmax = (1 : ℝ) := (congrArg _ hr).symm.trans hseed
+              rw [h1]
+              field_simp
+              ring
+        · rename_i hr
+          refine ⟨rfl, ?_, ?_, _, le_refl _, ?_, f1, ?_, fun j h1 h2 => ?_⟩
+          · dsimp only; omega
+          · dsimp only; omega
+          · dsimp only; omega
+          · dsimp only; rw [hseed]; norm_num
+          · dsimp only at h1
+            exact hrec j (by omega) (by omega) h2
+
+/-- the un-normalised array satisfies the recurrence at every cell of the range but one (the matching
+    point `jm`), and does not vanish identically -/
+def Good (jmin jmax : Int) (f : Array ℝ) : Prop :=
+  ∃ jm, jmin ≤ jm ∧ jm ≤ jmax ∧ (∀ j, jmin ≤ j → j ≤ jmax → j ≠ jm → Rec j2 j3 m1 m2 m3 f j) ∧
+    ∃ s, jmin ≤ s ∧ s ≤ jmax ∧ geti f s ≠ 0
+
+/-- the run returns `finish f` with `f` a `Good` array of `n` cells -/
+def GoodOut (jmin jmax : Int) (n : Nat) (f0 : Array ℝ) (r : Out ℝ) : Prop :=
+  ∃ f : Array ℝ, f.size = n ∧ r = Lemmas.W3jBounds.finish j2 j3 m2 m3 jmin jmax f ∧
+    (∀ j, 0 ≤ j → (j < jmin ∨ jmax < j) → geti f j = geti f0 j) ∧
+    Good (j2 := j2) (j3 := j3) (m1 := m1) (m2 := m2) (m3 := m3) jmin jmax f
+
+theorem meet_ok {jmin jmax : Int} (C : Coef j2 j3 m1 m2 m3 jmin jmax) {n : Nat} {scale : ℝ}
+    {f Fm Fp : Array ℝ} {jplus jmid s : Int} (hsc : scale ≠ 0) (hf : f.size = n) (hn : jmax < n)
+    (hFm : ∀ j, jmin ≤ j → j < jmid → Rec j2 j3 m1 m2 m3 Fm j) (hmid : geti Fm jmid ≠ 0)
+    (h1 : jmin ≤ jmid) (h2 : jmid ≤ jplus) (h3 : jplus ≤ jmax - 1) (hs : jplus ≤ s) (hs' : s ≤ jmax)
+    (hFp : BwdInv j2 j3 m1 m2 m3 jmax n s Fp jplus) :
+    GoodOut (j2 := j2) (j3 := j3) (m1 := m1) (m2 := m2) (m3 := m3) jmin jmax n f
+      (Lemmas.W3jBounds.meet j2 j3 m1 m2 m3 jmin jmax scale f Fm Fp jplus jmid (geti Fm jmid)) := by
+  have h0 := C.h0
+  have hlt := C.hlt
+  rw [meet_eq]
+  obtain ⟨b1, b2, b3⟩ : BwdInv j2 j3 m1 m2 m3 jmax n s
+      (bwdThreeLoop j2 j3 m1 m2 m3 jmax scale jplus jmid Fp).run jmid := by
+    have := (id_triple _ _ _).1 (bwdThreeLoop_triple j2 j3 m1 m2 m3 jmax n scale jplus jmid s Fp)
+      ⟨by omega, hs, hs', hn, hsc, C.Xtop, fun j hj hj' => C.Zne j (by omega) (by omega), hFp⟩
+    exact this.mono (by omega)
+  dsimp only
+  generalize (bwdThreeLoop j2 j3 m1 m2 m3 jmax scale jplus jmid Fp).run = Fp' at b1 b2 b3 ⊢
+  rw [if_neg (by omega)]
+  split
+  · -- the downward sweep covered everything
+    rename_i hjm
+    have hg : ∀ j, jmin ≤ j → j ≤ jmax → geti (copyRange f Fp' jmin jmax) j = geti Fp' j := by
+      intro j hj hj'
+      rw [geti_copyRange f Fp' jmin jmax h0 (by rw [hf]; exact_mod_cast hn) j (by omega),
+        if_pos ⟨hj, hj'⟩]
+    refine ⟨_, by rw [size_copyRange, hf], rfl, (fun j hj ho => by
+      rw [geti_copyRange f _ jmin jmax h0 (by rw [hf]; exact_mod_cast hn) j hj, if_neg (by omega)]),
+      jmin, le_refl _, hlt.le, fun j hj hj' hne => ?_,
+      s, by omega, hs', by rw [hg s (by omega) hs']; exact b2⟩
+    refine Rec_of_scaled 1 ?_ (by rw [hg j hj hj', one_mul]) (Or.inr ?_) (b3 j (by omega) hj')
+    · by_cases hjj : j = jmax
+      · left; rw [hjj]; exact C.Xtop
+      · right; rw [hg (j + 1) (by omega) (by omega), one_mul]
+    · rw [hg (j - 1) (by omega) (by omega), one_mul]
+  · rename_i hjm
+    obtain ⟨g1, g2, g3⟩ := (id_triple _ _ _).1
+      (scaleCopyLoop_triple jmin jmid (geti Fp' jmid) (geti Fm jmid) Fm f)
+      ⟨h0, by rw [hf]; omega⟩
+    generalize (scaleCopyLoop jmin jmid (geti Fp' jmid) (geti Fm jmid) Fm f).run = g at g1 g2 g3 ⊢
+    simp only [RealScalar.mul_def, RealScalar.div_def] at g2
+    have hhi : ∀ j, jmid < j → j ≤ jmax → geti (copyRange g Fp' (jmid + 1) jmax) j = geti Fp' j := by
+      intro j hj hj'
+      rw [geti_copyRange g Fp' (jmid + 1) jmax (by omega) (by rw [g1, hf]; exact_mod_cast hn) j (by omega),
+        if_pos ⟨by omega, hj'⟩]
+    have hlo : ∀ j, jmin ≤ j → j ≤ jmid → geti (copyRange g Fp' (jmid + 1) jmax) j
+        = (geti Fp' jmid / geti Fm jmid) * geti Fm j := by
+      intro j hj hj'
+      rw [geti_copyRange g Fp' (jmid + 1) jmax (by omega) (by rw [g1, hf]; exact_mod_cast hn) j (by omega),
+        if_neg (by omega), g2 j hj hj']
+      ring
+    have hmidc : geti (copyRange g Fp' (jmid + 1) jmax) jmid = geti Fp' jmid := by
+      rw [hlo jmid h1 (le_refl _)]; field_simp
+    have hall : ∀ j, jmid ≤ j → j ≤ jmax → geti (copyRange g Fp' (jmid + 1) jmax) j = geti Fp' j := by
+      intro j hj hj'
+      by_cases hjj : j = jmid
+      · rw [hjj]; exact hmidc
+      · exact hhi j (by omega) hj'
+    refine ⟨_, by rw [size_copyRange, g1, hf], rfl, (fun j hj ho => by
+      rw [geti_copyRange g Fp' (jmid + 1) jmax (by omega) (by rw [g1, hf]; exact_mod_cast hn) j hj,
+        if_neg (by omega)]
+      exact g3 j hj (by omega)),
+      jmid, h1, by omega, fun j hj hj' hne => ?_,
+      s, by omega, hs', by rw [hall s (by omega) hs']; exact b2⟩
+    by_cases hlow : j < jmid
+    · refine Rec_of_scaled (geti Fp' jmid / geti Fm jmid) (Or.inr (hlo (j + 1) (by omega) (by omega)))
+        (hlo j hj (by omega)) ?_ (hFm j hj hlow)
+      by_cases hjj : j = jmin
+      · left; rw [hjj]; exact C.Z0
+      · right; exact hlo (j - 1) (by omega) (by omega)
+    · refine Rec_of_scaled 1 ?_ (by rw [hall j (by omega) hj', one_mul]) (Or.inr ?_)
+        (b3 j (by omega) hj')
+      · by_cases hjj : j = jmax
+        · left; rw [hjj]; exact C.Xtop
+        · right; rw [hall (j + 1) (by omega) (by omega), one_mul]
+      · rw [hall (j - 1) (by omega) (by omega), one_mul]
+
+/-- a solution of the recurrence with a non-zero first cell has no two consecutive zeros -/
+theorem no_two_zeros {jmin jmax : Int} (C : Coef j2 j3 m1 m2 m3 jmin jmax) {n : Nat} {Fm : Array ℝ}
+    {hi k : Int} (h : FwdInv j2 j3 m1 m2 m3 jmin n Fm hi) (hk : jmin < k) (hk' : k ≤ hi)
+    (hk'' : k ≤ jmax + 1) (hz1 : geti Fm k = 0) (hz2 : geti Fm (k - 1) = 0) : False := by
+  obtain ⟨_, hne, _, hrec⟩ := h
+  have key : ∀ i : Nat, jmin ≤ k - 1 - i → geti Fm (k - 1 - i) = 0 ∧ geti Fm (k - i) = 0 := by
+    intro i
+    induction i with
+    | zero => intro _; simp only [Nat.cast_zero, sub_zero]; exact ⟨hz2, hz1⟩
+    | succ i ih =>
+      intro hlo
+      obtain ⟨a1, a2⟩ := ih (by omega)
+      have hr := hrec (k - 1 - i) (by omega) (by omega)
+      unfold Rec at hr
+      rw [show k - 1 - (i : Int) + 1 = k - i by ring, a1, a2, mul_zero, mul_zero, zero_add, zero_add] at hr
+      have hZ := C.Zne (k - 1 - i) (by omega) (by omega)
+      have h3 : geti Fm (k - 1 - i - 1) = 0 := by
+        rcases mul_eq_zero.1 hr with h | h
+        · exact absurd h hZ
+        · exact h
+      refine ⟨?_, ?_⟩
+      · rw [show k - 1 - ((i + 1 : Nat) : Int) = k - 1 - i - 1 by push_cast; ring]; exact h3
+      · rw [show k - ((i + 1 : Nat) : Int) = k - 1 - i by push_cast; ring]; exact a1
+  have := (key (k - 1 - jmin).toNat (by omega)).1
+  rw [show k - 1 - ((k - 1 - jmin).toNat : Int) = jmin by omega] at this
+  exact hne this
+
+theorem geti_neg (a : Array ℝ) (i : Int) (h : i < 0) : geti a i = geti a 0 := by
+  unfold geti
+  rw [show i.toNat = (0 : Int).toNat by omega]
+
+theorem threeTerm_ok {jmin jmax : Int} (C : Coef j2 j3 m1 m2 m3 jmin jmax) {n : Nat} {scale : ℝ}
+    {f Fm Fp : Array ℝ} {undefMin : Bool} {jminus jplus s : Int} (hsc : scale ≠ 0) (hf : f.size = n)
+    (hn : jmax < n) (H1 : undefMin = true → jminus = jmin)
+    (H2 : undefMin = false → jmin + 1 ≤ jminus ∧ jminus ≤ jmax - 1 ∧
+      FwdInv j2 j3 m1 m2 m3 jmin n Fm jminus)
+    (h3 : jmin ≤ jplus) (h3' : jplus ≤ jmax - 1) (hs : jplus ≤ s) (hs' : s ≤ jmax)
+    (hFp : BwdInv j2 j3 m1 m2 m3 jmax n s Fp jplus) (hreg : jminus ≤ jplus + 1) :
+    GoodOut (j2 := j2) (j3 := j3) (m1 := m1) (m2 := m2) (m3 := m3) jmin jmax n f
+      (Lemmas.W3jBounds.threeTerm j2 j3 m1 m2 m3 jmin jmax scale f Fm Fp undefMin false jminus jplus) := by
+  have h0 := C.h0
+  have hlt := C.hlt
+  rw [threeTerm_eq]
+  cases undefMin with
+  | true =>
+    simp only [Bool.and_false, Bool.false_eq_true, ↓reduceIte, Bool.not_true, Bool.false_and]
+    obtain ⟨b1, b2, b3⟩ : BwdInv j2 j3 m1 m2 m3 jmax n s
+        (bwdThreeLoop j2 j3 m1 m2 m3 jmax scale jplus jmin Fp).run jmin := by
+      have := (id_triple _ _ _).1 (bwdThreeLoop_triple j2 j3 m1 m2 m3 jmax n scale jplus jmin s Fp)
+        ⟨h0, hs, hs', hn, hsc, C.Xtop, fun j hj hj' => C.Zne j (by omega) (by omega), hFp⟩
+      exact this.mono (by omega)
+    generalize (bwdThreeLoop j2 j3 m1 m2 m3 jmax scale jplus jmin Fp).run = Fp' at b1 b2 b3 ⊢
+    have hg : ∀ j, jmin ≤ j → j ≤ jmax → geti (copyRange f Fp' jmin jmax) j = geti Fp' j := by
+      intro j hj hj'
+      rw [geti_copyRange f Fp' jmin jmax h0 (by rw [hf]; exact_mod_cast hn) j (by omega),
+        if_pos ⟨hj, hj'⟩]
+    refine ⟨_, by rw [size_copyRange, hf], rfl, (fun j hj ho => by
+      rw [geti_copyRange f _ jmin jmax h0 (by rw [hf]; exact_mod_cast hn) j hj, if_neg (by omega)]),
+      jmin, le_refl _, hlt.le, fun j hj hj' hne => ?_,
+      s, by omega, hs', by rw [hg s (by omega) hs']; exact b2⟩
+    refine Rec_of_scaled 1 ?_ (by rw [hg j hj hj', one_mul]) (Or.inr ?_) (b3 j (by omega) hj')
+    · by_cases hjj : j = jmax
+      · left; rw [hjj]; exact C.Xtop
+      · right; rw [hg (j + 1) (by omega) (by omega), one_mul]
+    · rw [hg (j - 1) (by omega) (by omega), one_mul]
+  | false =>
+    obtain ⟨m1', m2', hFm⟩ := H2 rfl
+    simp only [Bool.false_eq_true, ↓reduceIte, Bool.not_false, Bool.and_self]
+    obtain ⟨t1, t2, t3⟩ := (id_triple _ _ _).1
+      (fwdThreeLoop_triple j2 j3 m1 m2 m3 jmin n scale jminus ((jminus + jplus) / 2) Fm)
+      ⟨h0, m1', by omega, hsc, C.Z0, fun j hj hj' => C.Xne j (by omega) (by omega) (by omega), hFm⟩
+    generalize (fwdThreeLoop j2 j3 m1 m2 m3 jmin scale jminus ((jminus + jplus) / 2) Fm).run = r
+      at t1 t2 t3 ⊢
+    have hr2 : jmin ≤ r.2 := by omega
+    -- the matching point and the value there
+    have key : ∀ jmid : Int, (jmid = r.2 ∨ jmid = r.2 - 1) → jmin ≤ jmid → geti r.1 jmid ≠ 0 →
+        GoodOut (j2 := j2) (j3 := j3) (m1 := m1) (m2 := m2) (m3 := m3) jmin jmax n f
+          (Lemmas.W3jBounds.meet j2 j3 m1 m2 m3 jmin jmax scale f r.1 Fp jplus jmid (geti r.1 jmid)) := by
+      intro jmid hj hlo hne
+      exact meet_ok C hsc hf hn (fun j h1 h2 => t3.2.2.2 j h1 (by omega)) hne hlo (by omega) h3' hs hs' hFp
+    simp only [isZero, RealScalar.beq_def, RealScalar.zero_def, RealScalar.lt_def, RealScalar.abs_def,
+      RealScalar.div_def, RealScalar.ofInt_def, Bool.and_eq_true, Bool.not_eq_true',
+      decide_eq_false_iff_not, decide_eq_true_eq]
+    split
+    · rename_i hdec
+      -- `j_mid -= 1`
+      refine key (r.2 - 1) (Or.inr rfl) ?_ hdec.1
+      by_contra hcon
+      have hr : r.2 = jmin := by omega
+      rw [hr] at hdec
+      by_cases hj0 : jmin = 0
+      · rw [hj0, geti_neg _ _ (by omega), div_self (by rw [← hj0]; exact t3.2.1)] at hdec
+        norm_num at hdec
+      · exact hdec.1 (t3.2.2.1 (jmin - 1) (by omega) (by omega))
+    · rename_i hdec
+      refine key r.2 (Or.inl rfl) hr2 ?_
+      intro hz
+      rcases t2 with t2 | t2
+      · by_cases hr : r.2 = jmin
+        · rw [hr] at hz; exact t3.2.1 hz
+        · apply hdec
+          have hprev : geti r.1 (r.2 - 1) ≠ 0 := fun hz2 =>
+            no_two_zeros C t3 (by omega) (by omega) (by omega) hz hz2
+          refine ⟨hprev, ?_⟩
+          rw [hz, zero_div, abs_zero]
+          norm_num
+      · exact t2.2 hz
+
+theorem afterFwd_ok {jmin jmax : Int} (C : Coef j2 j3 m1 m2 m3 jmin jmax) {n : Nat} {scale : ℝ}
+    {f Fp : Array ℝ} {fw : Fwd ℝ} (hsc : scale ≠ 0) (hf : f.size = n) (hFp : Fp.size = n)
+    (hn : jmax < n)
+    (hfw : FwdOK (j2 := j2) (j3 := j3) (m1 := m1) (m2 := m2) (m3 := m3) jmin jmax n fw)
+    (hreg : fw.jminus = jmax ∨
+      fw.jminus ≤ (revPhase j2 j3 m1 m2 m3 jmin jmax fw.sf Fp fw.jminus).jplus + 1) :
+    GoodOut (j2 := j2) (j3 := j3) (m1 := m1) (m2 := m2) (m3 := m3) jmin jmax n f
+      (Lemmas.W3jBounds.afterFwd j2 j3 m1 m2 m3 jmin jmax scale f fw.sf fw.Fm Fp fw.undefMin fw.jminus) := by
+  have h0 := C.h0
+  have hlt := C.hlt
+  obtain ⟨hsf, H1, H2⟩ := hfw
+  rw [afterFwd_eq]
+  split
+  · rename_i hjm
+    have hu : fw.undefMin = false := by
+      cases h : fw.undefMin with
+      | false => rfl
+      | true => have := H1 h; omega
+    obtain ⟨_, _, hsz, hne, _, hrec⟩ := H2 hu
+    have hg : ∀ j, jmin ≤ j → j ≤ jmax → geti (copyRange f fw.Fm jmin jmax) j = geti fw.Fm j := by
+      intro j hj hj'
+      rw [geti_copyRange f fw.Fm jmin jmax h0 (by rw [hf]; exact_mod_cast hn) j (by omega),
+        if_pos ⟨hj, hj'⟩]
+    refine ⟨_, by rw [size_copyRange, hf], rfl, (fun j hj ho => by
+      rw [geti_copyRange f _ jmin jmax h0 (by rw [hf]; exact_mod_cast hn) j hj, if_neg (by omega)]),
+      jmax, hlt.le, le_refl _, fun j hj hj' hne' => ?_,
+      jmin, le_refl _, hlt.le, by rw [hg jmin (le_refl _) hlt.le]; exact hne⟩
+    refine Rec_of_scaled 1 (Or.inr ?_) (by rw [hg j hj hj', one_mul]) ?_ (hrec j hj (by omega))
+    · rw [hg (j + 1) (by omega) (by omega), one_mul]
+    · by_cases hjj : j = jmin
+      · left; rw [hjj]; exact C.Z0
+      · right; rw [hg (j - 1) (by omega) (by omega), one_mul]
+  · rename_i hjm
+    have hjm1 : jmin ≤ fw.jminus ∧ fw.jminus ≤ jmax - 1 := by
+      cases h : fw.undefMin with
+      | false => have := H2 h; omega
+      | true => have := H1 h; omega
+    obtain ⟨r1, r2, r3, s, r4, r5, r6⟩ := revPhase_ok C hsf hFp hn fw.jminus hjm1.1 hjm1.2
+    have hreg' := hreg.resolve_left hjm
+    dsimp only
+    rw [r1]
+    refine threeTerm_ok C hsc hf hn H1 (fun h => ?_) r2 r3 r4 r5 (r6.mono (by omega)) hreg'
+    have := H2 h
+    exact ⟨this.1, by omega, this.2.2⟩
+
+theorem geti_zero_view (ws : Array ℝ) (a b : Nat) (j : Int) :
+    geti ((ws.map (fun _ => (zero : ℝ))).extract a b) j = 0 := by
+  unfold geti
+  rw [Array.getD_eq_getD_getElem?]
+  simp only [Array.getElem?_extract, Array.getElem?_map]
+  split
+  · cases h : ws[a + j.toNat]? <;> simp [zero]
+  · simp [zero]
+
+theorem size_zero_view (ws : Array ℝ) (size k : Nat) (h : 4 * size ≤ ws.size) (hk : k < 4) :
+    ((ws.map (fun _ => (zero : ℝ))).extract (k * size) ((k + 1) * size)).size = size := by
+  simp only [Array.size_extract, Array.size_map]
+  have : (k + 1) * size ≤ ws.size := by nlinarith
+  rw [Nat.min_eq_left this]
+  rw [Nat.add_mul, Nat.one_mul]; omega
+
+theorem YfI_m_zero (j j2 j3 : Int) : YfI j j2 j3 0 0 = 0 := by
+  have w0 : Gen.wrap64 0 = 0 := by decide
+  simp [YfI, Gen.B_ret, Gen.B_w, w0]
+
+theorem coef_of_adm (j2 j3 m2 m3 : Int) (ha : Adm j2 j3 m2 m3) (hlt : jminOf j2 j3 m2 m3 < j2 + j3) :
+    Coef j2 j3 (-(m2 + m3)) m2 m3 (jminOf j2 j3 m2 m3) (j2 + j3) := by
+  have h0 := jminOf_nonneg j2 j3 m2 m3
+  refine ⟨h0, hlt, ?_, ?_, fun j h1 h2 => Zf_ne j j2 j3 m2 m3 ha h1 h2, fun j h1 h2 h3 => ?_,
+    fun hj => ?_, fun h1 h2 h3 j => ?_⟩
+  · rw [Zf_real, A_jmin j2 j3 m2 m3 ha hlt.le, mul_zero]
+  · rw [Xf_real, A_top j2 j3 m2 m3 ha, mul_zero]
+  · rw [Xf_real]
+    have hj : (0 : ℝ) < ((j : ℤ) : ℝ) := by exact_mod_cast (by omega : (0 : ℤ) < j)
+    exact (mul_pos hj (A_pos (j + 1) j2 j3 m2 m3 ha (by omega) (by omega))).ne'
+  · have hs : m2 + m3 = 0 := by unfold jminOf Lemmas.W3jBounds.jminOf at hj; omega
+    rw [hj]
+    simp [Yf, Lemmas.W3jBounds.YfI_zero j2 j3 m2 m3 hs]
+  · subst h2 h3
+    simp [Yf, YfI_m_zero]
+
+/-- state after the forward phase of the run `calculate size ws j2 j3 m2 m3` -/
+def fwdOf (size : Nat) (ws : Array ℝ) (j2 j3 m2 m3 : Int) : Fwd ℝ :=
+  let w0 : Array ℝ := ws.map (fun _ => zero)
+  fwdPhase j2 j3 (-(m2 + m3)) m2 m3 (jminOf j2 j3 m2 m3) (j2 + j3)
+    (w0.extract size (2*size)) (w0.extract (2*size) (3*size))
+
+/-- state after the reverse phase -/
+def revOf (size : Nat) (ws : Array ℝ) (j2 j3 m2 m3 : Int) : Rev ℝ :=
+  let w0 : Array ℝ := ws.map (fun _ => zero)
+  revPhase j2 j3 (-(m2 + m3)) m2 m3 (jminOf j2 j3 m2 m3) (j2 + j3)
+    (fwdOf size ws j2 j3 m2 m3).sf (w0.extract (3*size) (4*size)) (fwdOf size ws j2 j3 m2 m3).jminus
+
+/-- The two non-classical regions do not overlap by more than one cell: either the forward ratio
+    iteration reached `j_max` (early exit), or `j_minus ≤ j_plus + 1` when the classical region is
+    entered.  (Otherwise `F_plus` is filled from stale `sf = rf` entries.) -/
+def Regular (size : Nat) (ws : Array ℝ) (j2 j3 m2 m3 : Int) : Prop :=
+  (fwdOf size ws j2 j3 m2 m3).jminus = j2 + j3 ∨
+  (fwdOf size ws j2 j3 m2 m3).jminus ≤ (revOf size ws j2 j3 m2 m3).jplus + 1
+
+theorem calculate_good (size : Nat) (ws : Array ℝ) (j2 j3 m2 m3 : Int) (ha : Adm j2 j3 m2 m3)
+    (hlt : jminOf j2 j3 m2 m3 < j2 + j3) (hs : j2 + j3 + 1 ≤ size) (hws : 4 * size ≤ ws.size)
+    (hreg : Regular size ws j2 j3 m2 m3) :
+    GoodOut (j2 := j2) (j3 := j3) (m1 := -(m2 + m3)) (m2 := m2) (m3 := m3) (jminOf j2 j3 m2 m3)
+      (j2 + j3) size ((ws.map (fun _ => (zero : ℝ))).extract 0 size) (calculate size ws j2 j3 m2 m3) := by
+  have C := coef_of_adm j2 j3 m2 m3 ha hlt
+  rw [Lemmas.W3jBounds.calculate_phased, calculateP_eq size ws j2 j3 m2 m3 ha.hm2 ha.hm3 hlt]
+  have e1 := size_zero_view ws size 1 hws (by omega)
+  have e2 := size_zero_view ws size 2 hws (by omega)
+  have e3 := size_zero_view ws size 3 hws (by omega)
+  have e0 := size_zero_view ws size 0 hws (by omega)
+  simp only [Nat.zero_mul, Nat.zero_add, Nat.one_mul, Nat.reduceAdd] at e0 e1 e2 e3
+  have hfw := fwdPhase_ok C e1 e2 (geti_zero_view ws _ _) (by omega : j2 + j3 < (size : Int))
+  exact afterFwd_ok C (by simp) e0 e3 (by omega) hfw hreg
+
+/-- every admissible regular run with more than one cell: pre-normalisation array, not identically
+    zero, satisfying the recurrence off one matching point -/
+theorem prenorm_good (size : Nat) (ws : Array ℝ) (j2 j3 m2 m3 : Int) (ha : Adm j2 j3 m2 m3)
+    (hlt : jminOf j2 j3 m2 m3 < j2 + j3) (hs : j2 + j3 + 1 ≤ size) (hws : 4 * size ≤ ws.size)
+    (hreg : Regular size ws j2 j3 m2 m3) :
+    ∃ f, PreNorm size ws j2 j3 m2 m3 f ∧ wsum f (jminOf j2 j3 m2 m3) (j2 + j3) ≠ 0 ∧
+      Good (j2 := j2) (j3 := j3) (m1 := -(m2 + m3)) (m2 := m2) (m3 := m3) (jminOf j2 j3 m2 m3)
+        (j2 + j3) f := by
+  obtain ⟨f, hsz, hcalc, _, hgood⟩ := calculate_good size ws j2 j3 m2 m3 ha hlt hs hws hreg
+  refine ⟨f, ⟨hsz, hcalc⟩, ?_, hgood⟩
+  obtain ⟨_, _, _, _, s, s1, s2, s3⟩ := hgood
+  exact (wsum_pos f _ _ (jminOf_nonneg _ _ _ _) s ⟨s1, s2⟩ s3).ne'
+
+theorem normalized_regular (size : Nat) (ws : Array ℝ) (j2 j3 m2 m3 : Int) (ha : Adm j2 j3 m2 m3)
+    (hlt : jminOf j2 j3 m2 m3 < j2 + j3) (hs : j2 + j3 + 1 ≤ size) (hws : 4 * size ≤ ws.size)
+    (hreg : Regular size ws j2 j3 m2 m3) :
+    ∑ j ∈ Finset.Icc (jminOf j2 j3 m2 m3) (j2 + j3),
+      (2 * (j : ℝ) + 1) * geti (calculate size ws j2 j3 m2 m3).f j ^ 2 = 1 := by
+  obtain ⟨f, hpre, hne, _⟩ := prenorm_good size ws j2 j3 m2 m3 ha hlt hs hws hreg
+  exact normalized size ws j2 j3 m2 m3 hlt hs f hpre (by rw [← wsum_Icc]; exact hne)
+
+/-- the returned array satisfies the three-term recurrence at every cell of `[j_min, j_max]` except
+    one matching point -/
+theorem recurrence_out (size : Nat) (ws : Array ℝ) (j2 j3 m2 m3 : Int) (ha : Adm j2 j3 m2 m3)
+    (hlt : jminOf j2 j3 m2 m3 < j2 + j3) (hs : j2 + j3 + 1 ≤ size) (hws : 4 * size ≤ ws.size)
+    (hreg : Regular size ws j2 j3 m2 m3) :
+    ∃ jm, jminOf j2 j3 m2 m3 ≤ jm ∧ jm ≤ j2 + j3 ∧
+      ∀ j, jminOf j2 j3 m2 m3 ≤ j → j ≤ j2 + j3 → j ≠ jm →
+        Rec j2 j3 (-(m2 + m3)) m2 m3 (calculate size ws j2 j3 m2 m3).f j := by
+  have C := coef_of_adm j2 j3 m2 m3 ha hlt
+  obtain ⟨f, ⟨hsz, hcalc⟩, hne, jm, h1, h2, hrec, _⟩ := prenorm_good size ws j2 j3 m2 m3 ha hlt hs hws hreg
+  obtain ⟨_, _, _, ⟨c, _, hc⟩, _⟩ := finish_spec j2 j3 m2 m3 _ _ f (jminOf_nonneg _ _ _ _) hlt.le
+    (by rw [hsz]; omega)
+  rw [hcalc]
+  refine ⟨jm, h1, h2, fun j hj hj' hne' => ?_⟩
+  refine Rec_of_scaled c ?_ (hc j hj hj') ?_ (hrec j hj hj' hne')
+  · by_cases hjj : j = j2 + j3
+    · left; rw [hjj]; exact C.Xtop
+    · right; exact hc (j + 1) (by omega) (by omega)
+  · by_cases hjj : j = jminOf j2 j3 m2 m3
+    · left; rw [hjj]; exact C.Z0
+    · right; exact hc (j - 1) (by omega) (by omega)
+
+/-! #### sufficient conditions for `Regular` -/
+
+theorem fwdOf_ok (size : Nat) (ws : Array ℝ) (j2 j3 m2 m3 : Int) (ha : Adm j2 j3 m2 m3)
+    (hlt : jminOf j2 j3 m2 m3 < j2 + j3) (hs : j2 + j3 + 1 ≤ size) (hws : 4 * size ≤ ws.size) :
+    FwdOK (j2 := j2) (j3 := j3) (m1 := -(m2 + m3)) (m2 := m2) (m3 := m3) (jminOf j2 j3 m2 m3) (j2 + j3)
+      size (fwdOf size ws j2 j3 m2 m3) := by
+  have C := coef_of_adm j2 j3 m2 m3 ha hlt
+  have e1 := size_zero_view ws size 1 hws (by omega)
+  have e2 := size_zero_view ws size 2 hws (by omega)
+  simp only [Nat.one_mul, Nat.reduceAdd] at e1 e2
+  exact fwdPhase_ok C e1 e2 (geti_zero_view ws _ _) (by omega : j2 + j3 < (size : Int))
+
+/-- bounds on `j_minus`, `j_plus` -/
+theorem fwd_rev_bounds (size : Nat) (ws : Array ℝ) (j2 j3 m2 m3 : Int) (ha : Adm j2 j3 m2 m3)
+    (hlt : jminOf j2 j3 m2 m3 < j2 + j3) (hs : j2 + j3 + 1 ≤ size) (hws : 4 * size ≤ ws.size) :
+    jminOf j2 j3 m2 m3 ≤ (fwdOf size ws j2 j3 m2 m3).jminus ∧
+    (fwdOf size ws j2 j3 m2 m3).jminus ≤ j2 + j3 ∧
+    ((fwdOf size ws j2 j3 m2 m3).jminus ≠ j2 + j3 →
+      jminOf j2 j3 m2 m3 ≤ (revOf size ws j2 j3 m2 m3).jplus ∧
+      (revOf size ws j2 j3 m2 m3).jplus ≤ j2 + j3 - 1) := by
+  have C := coef_of_adm j2 j3 m2 m3 ha hlt
+  obtain ⟨hsf, H1, H2⟩ := fwdOf_ok size ws j2 j3 m2 m3 ha hlt hs hws
+  have hb : jminOf j2 j3 m2 m3 ≤ (fwdOf size ws j2 j3 m2 m3).jminus ∧
+      (fwdOf size ws j2 j3 m2 m3).jminus ≤ j2 + j3 := by
+    cases h : (fwdOf size ws j2 j3 m2 m3).undefMin with
+    | false => have := H2 h; omega
+    | true => have := H1 h; omega
+  refine ⟨hb.1, hb.2, fun hne => ?_⟩
+  have e3 := size_zero_view ws size 3 hws (by omega)
+  simp only [Nat.reduceAdd] at e3
+  obtain ⟨_, r2, r3, _⟩ := revPhase_ok C hsf e3 (by omega : j2 + j3 < (size : Int))
+    (fwdOf size ws j2 j3 m2 m3).jminus hb.1 (by omega)
+  exact ⟨r2, r3⟩
+
+/-- at most three cells -/
+theorem regular_of_small (size : Nat) (ws : Array ℝ) (j2 j3 m2 m3 : Int) (ha : Adm j2 j3 m2 m3)
+    (hlt : jminOf j2 j3 m2 m3 < j2 + j3) (hs : j2 + j3 + 1 ≤ size) (hws : 4 * size ≤ ws.size)
+    (hsmall : j2 + j3 ≤ jminOf j2 j3 m2 m3 + 2) : Regular size ws j2 j3 m2 m3 := by
+  obtain ⟨b1, b2, b3⟩ := fwd_rev_bounds size ws j2 j3 m2 m3 ha hlt hs hws
+  by_cases h : (fwdOf size ws j2 j3 m2 m3).jminus = j2 + j3
+  · exact Or.inl h
+  · have := b3 h
+    exact Or.inr (by omega)
+
+theorem revPhase_jplus_of_nonneg (jmin jmax jminus : Int) (sf Fp : Array ℝ)
+    (hY : 0 ≤ (Yf jmax j2 j3 m2 m3 : ℝ)) (hZ : 0 < (Zf jmax j2 j3 m1 : ℝ)) :
+    (revPhase j2 j3 m1 m2 m3 jmin jmax sf Fp jminus).jplus = jmax - 1 := by
+  unfold revPhase
+  simp only [isZero, ge0, RealScalar.beq_def, RealScalar.le_def, RealScalar.zero_def,
+    RealScalar.mul_def, decide_eq_true_eq]
+  split
+  · rfl
+  · split
+    · split
+      · rename_i h; exact absurd h hZ.ne'
+      · rfl
+    · split
+      · rfl
+      · rename_i h; exact absurd (mul_nonneg hY hZ.le) h
+
+theorem fwdPhase_jminus_of_nonneg (jmin jmax : Int) (sf Fm : Array ℝ)
+    (hY : 0 ≤ (Yf jmin j2 j3 m2 m3 : ℝ)) (hX : 0 ≤ (Xf jmin j2 j3 m1 : ℝ)) :
+    (fwdPhase j2 j3 m1 m2 m3 jmin jmax sf Fm).jminus ≤ jmin + 1 := by
+  unfold fwdPhase
+  simp only [isZero, ge0, RealScalar.beq_def, RealScalar.le_def, RealScalar.zero_def,
+    RealScalar.mul_def, decide_eq_true_eq]
+  split
+  · exact le_refl _
+  · split
+    · split
+      · show jmin ≤ jmin + 1; omega
+      · exact le_refl _
+    · split
+      · exact le_refl _
+      · rename_i h; exact absurd (mul_nonneg hX hY) h
+
+theorem Yf_eq_B (j j2 j3 m2 m3 : Int) (ha : Adm j2 j3 m2 m3) (hj : 0 ≤ j ∧ j ≤ j2 + j3) :
+    (Yf j j2 j3 m2 m3 : ℝ) = ((Gen.B j j2 j3 m2 m3 : ℤ) : ℝ) := by
+  obtain ⟨h2, h3, hs⟩ := ha
+  unfold Yf YfI
+  rw [Lemmas.W3j.B_ret_eq j j2 j3 m2 m3 (by omega) (by omega) (by omega) (by omega) (by omega)]
+  rfl
+
+/-- `B(j_max) ≥ 0`: the reverse phase starts in the classical region -/
+theorem regular_of_Bmax_nonneg (size : Nat) (ws : Array ℝ) (j2 j3 m2 m3 : Int) (ha : Adm j2 j3 m2 m3)
+    (hlt : jminOf j2 j3 m2 m3 < j2 + j3) (hs : j2 + j3 + 1 ≤ size) (hws : 4 * size ≤ ws.size)
+    (hB : 0 ≤ Gen.B (j2 + j3) j2 j3 m2 m3) : Regular size ws j2 j3 m2 m3 := by
+  have h0 := jminOf_nonneg j2 j3 m2 m3
+  obtain ⟨b1, b2, _⟩ := fwd_rev_bounds size ws j2 j3 m2 m3 ha hlt hs hws
+  right
+  have hY : 0 ≤ (Yf (j2 + j3) j2 j3 m2 m3 : ℝ) := by
+    rw [Yf_eq_B _ j2 j3 m2 m3 ha ⟨by omega, le_refl _⟩]; exact_mod_cast hB
+  have hZ : 0 < (Zf (j2 + j3) j2 j3 (-(m2 + m3)) : ℝ) := by
+    rw [Zf_real]
+    have : (0 : ℝ) < ((j2 + j3 + 1 : ℤ) : ℝ) := by exact_mod_cast (by omega : (0 : ℤ) < j2 + j3 + 1)
+    exact mul_pos this (A_pos _ j2 j3 m2 m3 ha hlt (le_refl _))
+  unfold revOf
+  rw [revPhase_jplus_of_nonneg _ _ _ _ _ hY hZ]
+  omega
+
+/-- `B(j_min) ≥ 0`: the forward phase starts in the classical region -/
+theorem regular_of_Bmin_nonneg (size : Nat) (ws : Array ℝ) (j2 j3 m2 m3 : Int) (ha : Adm j2 j3 m2 m3)
+    (hlt : jminOf j2 j3 m2 m3 < j2 + j3) (hs : j2 + j3 + 1 ≤ size) (hws : 4 * size ≤ ws.size)
+    (hB : 0 ≤ Gen.B (jminOf j2 j3 m2 m3) j2 j3 m2 m3) : Regular size ws j2 j3 m2 m3 := by
+  have h0 := jminOf_nonneg j2 j3 m2 m3
+  obtain ⟨b1, b2, b3⟩ := fwd_rev_bounds size ws j2 j3 m2 m3 ha hlt hs hws
+  have hY : 0 ≤ (Yf (jminOf j2 j3 m2 m3) j2 j3 m2 m3 : ℝ) := by
+    rw [Yf_eq_B _ j2 j3 m2 m3 ha ⟨h0, hlt.le⟩]; exact_mod_cast hB
+  have hX : 0 ≤ (Xf (jminOf j2 j3 m2 m3) j2 j3 (-(m2 + m3)) : ℝ) := by
+    rw [Xf_real, A_real]
+    have : (0 : ℝ) ≤ ((jminOf j2 j3 m2 m3 : ℤ) : ℝ) := by exact_mod_cast h0
+    exact mul_nonneg this (Real.sqrt_nonneg _)
+  have hle : (fwdOf size ws j2 j3 m2 m3).jminus ≤ jminOf j2 j3 m2 m3 + 1 :=
+    fwdPhase_jminus_of_nonneg _ _ _ _ hY hX
+  by_cases h : (fwdOf size ws j2 j3 m2 m3).jminus = j2 + j3
+  · exact Or.inl h
+  · have := b3 h
+    exact Or.inr (by omega)
+
+/-- `m2 = m3 = 0` -/
+theorem regular_of_m_zero (size : Nat) (ws : Array ℝ) (j2 j3 : Int) (ha : Adm j2 j3 0 0)
+    (hlt : jminOf j2 j3 0 0 < j2 + j3) (hs : j2 + j3 + 1 ≤ size) (hws : 4 * size ≤ ws.size) :
+    Regular size ws j2 j3 0 0 :=
+  regular_of_Bmax_nonneg size ws j2 j3 0 0 ha hlt hs hws (by simp [Gen.B])
+/-- the cells outside `[j_min, j_max]` of the returned array are `0` (regular multi-cell runs) -/
+theorem zero_outside_regular (size : Nat) (ws : Array ℝ) (j2 j3 m2 m3 : Int) (ha : Adm j2 j3 m2 m3)
+    (hlt : jminOf j2 j3 m2 m3 < j2 + j3) (hs : j2 + j3 + 1 ≤ size) (hws : 4 * size ≤ ws.size)
+    (hreg : Regular size ws j2 j3 m2 m3) (j : Int) (hj : 0 ≤ j)
+    (hout : j < jminOf j2 j3 m2 m3 ∨ j2 + j3 < j) :
+    geti (calculate size ws j2 j3 m2 m3).f j = 0 := by
+  obtain ⟨f, hsz, hcalc, hz, _⟩ := calculate_good size ws j2 j3 m2 m3 ha hlt hs hws hreg
+  rw [hcalc, (finish_spec j2 j3 m2 m3 _ _ f (jminOf_nonneg _ _ _ _) hlt.le (by rw [hsz]; omega)).2.2.2.2
+    j hj (by omega), hz j hj hout]
+  exact geti_zero_view ws _ _ j
+
+/-- no admissible call raises -/
+theorem never_raises (size : Nat) (ws : Array ℝ) (j2 j3 m2 m3 : Int) (ha : Adm j2 j3 m2 m3)
+    (hs : j2 + j3 + 1 ≤ size) (hws : size ≤ ws.size) :
+    (calculate size ws j2 j3 m2 m3).raised = false := by
+  rcases lt_trichotomy (j2 + j3) (jminOf j2 j3 m2 m3) with h | h | h
+  · rw [Lemmas.W3j.calculate_out_of_range size ws j2 j3 m2 m3 (Or.inr (Or.inr h))]
+  · exact (single_cell size ws j2 j3 m2 m3 ha h hs hws).1
+  · obtain ⟨f, _, hcalc⟩ := prenorm_exists size ws j2 j3 m2 m3 ha h hws
+    rw [hcalc]; rfl
+end glue
 
 end Lemmas.W3jNorm
